@@ -27,10 +27,14 @@ import (
 	"fmt"
 	"os"
 	"path/filepath"
+	"sort"
+	"strings"
 	"testing"
 
 	"github.com/xinchentechnote/fin-protoc/internal/model"
 )
+
+var _ = strings.TrimSpace
 
 type goverifCellReq struct {
 	ID   string ` + "`json:\"id\"`" + `
@@ -78,6 +82,25 @@ func goverifCallEntry(lang, dir string, m *model.BinaryModel, p *model.Packet, f
 		return NewCppGenerator(m).generateDecode(p)
 	case "lua:dec":
 		return NewLuaWspGenerator(m).generateMainDissector(p)
+	case "lua:sub":
+		return NewLuaWspGenerator(m).generateSubDissector(p.Name, p)
+	case "lua:fielddef":
+		return NewLuaWspGenerator(m).generateFieldDefinitionFromPacket(m, p)
+	case "lua:file":
+		out, err := NewLuaWspGenerator(m).Generate(m)
+		if err != nil {
+			panic(err)
+		}
+		var names []string
+		for n := range out {
+			names = append(names, n)
+		}
+		sort.Strings(names)
+		var b strings.Builder
+		for _, n := range names {
+			b.Write(out[n])
+		}
+		return b.String()
 	}
 	panic("no entry for " + lang + ":" + dir)
 }
@@ -116,10 +139,15 @@ func TestGoverifCells(t *testing.T) {
 			}
 			p := m.PacketsMap["CellPacket"]
 			var fld *model.Field
-			for _, x := range p.Fields {
-				if x.Name == "fieldUnderTest" {
-					fld = x
+			if p != nil {
+				for _, x := range p.Fields {
+					if x.Name == "fieldUnderTest" {
+						fld = x
+					}
 				}
+			}
+			if fld == nil {
+				fld = &model.Field{}
 			}
 			res.Text = goverifCallEntry(r.Lang, r.Dir, m, p, fld)
 		}()
@@ -286,6 +314,9 @@ func replayEmit(o emitObl, runs []emitRun) map[string]interface{} {
 	for _, v := range vs {
 		reqs = append(reqs, cellReq{ID: v.name, Lang: lang, Dir: dir, DSL: cellDSL(*cell, v.opts)})
 	}
+	if pred == "defines" {
+		reqs = append(reqs, cellReq{ID: "dissector", Lang: lang, Dir: "dec", DSL: cellDSL(*cell, vs[0].opts)})
+	}
 	res, err := runCells(reqs)
 	if err != nil {
 		return map[string]interface{}{"reproduced": false, "note": err.Error()}
@@ -422,6 +453,41 @@ func replayEmit(o emitObl, runs []emitRun) map[string]interface{} {
 			}
 		}
 		show("base")
+	case "advance", "nested", "scope", "returns":
+		var l []string
+		if pred == "returns" {
+			l = luaReturnsIssues(t("base"))
+		} else {
+			l = analyseLua(t("base")).Issues[pred]
+		}
+		if len(l) > 0 {
+			reproduced, observed = true, strings.Join(l, " | ")
+		}
+		show("base")
+	case "width":
+		var l []string
+		for _, v := range []struct {
+			n  string
+			cb luaCombo
+		}{{"base", luaCombo{"u16", "u16", false}}, {"le", luaCombo{"u16", "u16", true}}, {"list8", luaCombo{"u16", "u8", false}}, {"list32", luaCombo{"u16", "u32", false}}, {"str8", luaCombo{"u8", "u16", false}}, {"str32", luaCombo{"u32", "u16", false}}} {
+			for _, x := range luaWidthIssues(analyseLua(t(v.n)), *cell, v.cb, "field_under_test", "6") {
+				l = append(l, "["+v.n+"] "+x)
+			}
+		}
+		if len(l) > 0 {
+			reproduced, observed = true, truncate(strings.Join(l, " | "), 1500)
+		}
+		show("base", "le", "list8", "list32", "str8", "str32")
+	case "defines":
+		defined := luaProtoFieldKeys(t("base"))
+		for _, r := range analyseLua(res["dissector"].Text).Reads {
+			if r.Kind == "display" && !strings.HasPrefix(r.Function, "dissect_") {
+				if k := strings.TrimPrefix(r.Target, "fields."); !defined[k] {
+					reproduced, observed = true, "the dissector displays fields."+k+", which the field definitions do not define"
+				}
+			}
+		}
+		rep["emitted"] = map[string]string{"field definitions": truncate(t("base"), 3000), "dissector": truncate(res["dissector"].Text, 3000)}
 	case "variants":
 		txt := t("base")
 		wantB := 1
